@@ -3,4 +3,4 @@
 package element
 
 // VerifTables exposes the exp/log tables to the verification harness.
-func VerifTables() (exp [256]Element, log [256]int) { return expTable, logTable }
+func VerifTables() (exp []Element, log []int) { return expTable[:], logTable[:] }
